@@ -442,9 +442,23 @@ def _parking(ix, inv, r, prop):
 
 
 # --------------------------------------------------------------------------- C04
-def check_c04(ix, amo_positions):
+def check_c04(ix, amo_positions, program=None):
     out = []
     seen = {}
+    if program is not None:
+        # "an attempt found started-but-unfinished is retried or failed according to the retry strategy": whatever ends an
+        # attempt (its own failure or an interruption), the strategy is asked with the number of attempts made, so no
+        # attempt beyond the strategy's bound is ever entered
+        sts = statements(program)
+        worst = {}
+        for e in ix.kinds["fn-enter"]:
+            if e["pos"] in amo_positions and e["fn"] == "step" and e["pos"] in sts:
+                worst[e["pos"]] = max(worst.get(e["pos"], 0), e["attempt"])
+        for pos, n in sorted(worst.items()):
+            m = strategy_model(sts[pos].get("retry"))
+            if m["max_attempts"] is not None and n > m["max_attempts"]:
+                out.append(V("C04", "attempt-beyond-strategy", f"at-most-once step {pos}: attempt {n} was entered although the retry "
+                             f"strategy allows {m['max_attempts']} attempts (an interrupted attempt counts as an attempt made)", pos=pos))
     for e in ix.kinds["fn-enter"]:
         if e["pos"] not in amo_positions or e["fn"] != "step":
             continue
@@ -1069,7 +1083,12 @@ def check_c13(ix, cfg):
                     out.append(V("C13", "wrong-result", f"{pos}: returned {json.dumps(d['v'])[:100]}, expected state of poll {first_stop} "
                                  f"{json.dumps(exp)[:100]}", pos=pos, seq=d["s1"]))
         for d in ix.deliveries.get(pos, []):
-            if d["how"] in ("ret", "raise") and not d.get("inv_level") and d.get("cls") not in ("ExecutionError", "ValidationError"):
+            from_check = any(e["pos"] == pos and e.get("outcome") == "raise" and e["i"] == d["inv"] and d["s0"] < e["s"] < d["s1"]
+                             for e in ix.kinds["fn-exit"])
+            # ExecutionError / ValidationError raised by the SDK itself reject the call before anything is recorded; the same
+            # classes raised BY THE CHECK FUNCTION are a failed poll like any other
+            if d["how"] in ("ret", "raise") and not d.get("inv_level") \
+                    and (d.get("cls") not in ("ExecutionError", "ValidationError") or from_check):
                 stt = ix.status_at(oid, d["s1"]) if oid else None
                 if stt not in TERMINAL:
                     out.append(V("C13", "outcome-before-record", f"{pos}: the condition's {d['how']} reached user code in invocation {d['inv']} "
